@@ -89,6 +89,21 @@ def pfinal (p : P) (ops : List Op) : P := ops.foldl pstep p
 def abs (s : St) : P :=
   { l := (s.arr s.keys).take s.len, outs := s.out.map (fun p => (s.arr p.1).take p.2) }
 
+/-- `Keys()` filling and returning a scratch buffer that is kept between calls
+(`r.scratch = append(r.scratch[:0], r.keys...); return r.scratch` — the aliasing *between answers* of seeded
+change r5-2, here on `Keys()`): the array of the previous answer is overwritten and handed out again when it is
+large enough, otherwise a fresh array becomes the scratch buffer. -/
+def keysScratch (s : St) : St :=
+  let fresh : St :=
+    { s with mem := s.mem ++ [(s.arr s.keys).take s.len], out := s.out ++ [(s.mem.length, s.len)] }
+  match s.out.getLast? with
+  | some (a, _) =>
+    if s.len ≤ (s.arr a).length then
+      { s with mem := s.mem.set a ((s.arr s.keys).take s.len ++ (s.arr a).drop s.len),
+               out := s.out ++ [(a, s.len)] }
+    else fresh
+  | none => fresh
+
 /-! ## line protocol (`own …`: the harness is the caller that keeps and edits what `Keys()` returned) -/
 open Hive.Proto
 
